@@ -2,9 +2,11 @@ package c08
 
 import (
 	"fmt"
+	"slices"
 	"sort"
 	"strconv"
 	"strings"
+	"unicode/utf16"
 
 	"verif/mc/checks/c07/objdrv"
 	"verif/mc/engine"
@@ -18,12 +20,13 @@ import (
 // [[Get]]/[[Put]]/[[Delete]]/comparefn calls is implementation-defined.
 
 const preludeSort = `
-var __rank = [], __mode = "rank", __calls = 0;
+var __rank = [], __mode = "rank", __calls = 0, __mag = 1, __zero = 0;
 var cmp = __label(function (a, b) {
   __log[__log.length] = "cmp(" + __c(a) + "," + __c(b) + ")";
   __calls++;
   switch (__mode) {
   case "rank": return __rank[a] - __rank[b];
+  case "sign": var d = __rank[a] - __rank[b]; return d > 0 ? __mag : d < 0 ? -__mag : __zero;
   case "pos": return 1;
   case "neg": return -1;
   case "alt": return (__calls % 2) ? 1 : -1;
@@ -188,7 +191,7 @@ func runSort(r *engine.Run) {
 	im := objdrv.New(prelude8 + preludeSort)
 	n := maxLen(r)
 
-	sortCase := func(key, setup string, before []V, call string, judge func(outcome, ret, recv, log string) string, aux map[string]string) {
+	sortCase := func(key, setup string, before []V, call string, judge func(outcome, ret, recv, log string) string, aux map[string]string, alts ...func(recv string) (string, string)) {
 		if !r.MineKey(key) {
 			return
 		}
@@ -210,6 +213,10 @@ func runSort(r *engine.Run) {
 			a := map[string]string{"method": "sort", "verdict": verdict, "obs.outcome": obs[0], "obs.recv": obs[2]}
 			for k, v := range aux {
 				a[k] = v
+			}
+			for _, alt := range alts {
+				name, v := alt(obs[2])
+				a["alt:"+name] = v
 			}
 			debugDump(key, "sort", "15.4.4.11 postcondition", verdict+" | "+join(obs))
 			r.Mismatch(engine.Mismatch{Key: key, Input: src, Expected: "ok (15.4.4.11 postcondition)", Observed: verdict + " | " + join(obs), Aux: a})
@@ -253,6 +260,29 @@ func runSort(r *engine.Run) {
 		})
 	}
 	r.Bound("default_comparator_arrays", fmt.Sprintf("all arrays of length <= %d over {hole, undefined, 1, 2, 10, \"a\"}", n))
+
+	// (a') default comparator on strings outside ASCII: SortCompare uses the < of 11.8.5, i.e. UTF-16
+	// code units (U+FF5E > U+D83D U+DE00 although the code point U+1F600 is larger)
+	raw := func(s string) V { return V{K: "rawstr", S: s} }
+	alpha = []V{vU, str("a"), raw("\u00e9"), raw("\uff5e"), raw("\U0001F600"), raw("\U00010000")}
+	byteOrder := func(a, b string) int { return strings.Compare(a[2:], b[2:]) }
+	unitOrder := func(a, b string) int { return slices.Compare(utf16.Encode([]rune(a[2:])), utf16.Encode([]rune(b[2:]))) }
+	for size := 2; size <= n; size++ {
+		rec(nil, size, func(el []V) {
+			el = append([]V(nil), el...)
+			key := "default-utf16/" + arr(el...).ID() + "/sort()"
+			sortCase(key, "", el, "o.sort()", func(outcome, ret, recv, log string) string {
+				if outcome != "ok" {
+					return "threw " + outcome
+				}
+				if ret != "o:o" {
+					return "returned " + ret + " instead of the receiver"
+				}
+				return judgeSort(el, recv, unitOrder, true)
+			}, nil, func(recv string) (string, string) { return "utf8-order", judgeSort(el, recv, byteOrder, true) })
+		})
+	}
+	r.Bound("default_comparator_non_ascii", "arrays over {undefined, a, U+00E9, U+FF5E, U+1F600, U+10000}")
 
 	// (b) every total preorder as comparator; (c) inconsistent comparators; (d) non-callable comparefn
 	patterns := func(size int, f func(pat []string)) {
@@ -326,6 +356,31 @@ func runSort(r *engine.Run) {
 					}
 					return judgeSort(el, recv, cmpf, true)
 				}, nil)
+				// the same preorder with the comparator's results mapped onto the lattice of
+				// negative / zero / positive numbers: only the sign may matter (15.4.4.11)
+				if k >= 2 {
+					for _, mag := range []string{"Infinity", "0.5", "5e-324", "1e300"} {
+						for _, zero := range []string{"0", "-0"} {
+							mag, zero := mag, zero
+							key := fmt.Sprintf("preorder/%s/ranks%v/mag=%s,zero=%s", arr(el...).ID(), ranks, mag, zero)
+							setup := fmt.Sprintf(`__mode = "sign"; __mag = %s; __zero = %s; __rank = [%s];`, mag, zero, strings.Join(rk, ","))
+							sortCase(key, setup, el, "o.sort(cmp)", func(outcome, ret, recv, log string) string {
+								if outcome != "ok" {
+									return "threw " + outcome
+								}
+								if ret != "o:o" {
+									return "returned " + ret + " instead of the receiver"
+								}
+								if v := logOK(log); v != "ok" {
+									return v
+								}
+								return judgeSort(el, recv, cmpf, true)
+							}, map[string]string{"mag": mag, "zero": zero},
+								// alternative model of the known finding: an infinite result counts as "equal", so any order of the defined values passes
+								func(recv string) (string, string) { return "infinite-is-zero", judgeSort(el, recv, nil, true) })
+						}
+					}
+				}
 			}
 			for _, mode := range []string{"pos", "neg", "alt", "nan", "undef"} {
 				key := fmt.Sprintf("inconsistent/%s/%s", arr(el...).ID(), mode)
